@@ -22,6 +22,11 @@ pub enum Fault {
     HeaderBit(usize),
     AdBit(usize),
     AdToggle,
+    /// two bits of the 16-byte authentication tag (bit indices 0..128 inside the tag)
+    TagPair(u8, u8),
+    /// structured multi-bit change of the tag: 0..=5 = the same difference (01, 80, ff) in every
+    /// 4- / 8-byte word, 6 = halves swapped, 7 = complement
+    TagPattern(u8),
 }
 
 fn fault_class(f: &Fault, fam_overhead_prefix: usize, wire_len: usize) -> &'static str {
@@ -53,7 +58,44 @@ fn fault_class(f: &Fault, fam_overhead_prefix: usize, wire_len: usize) -> &'stat
         Fault::HeaderBit(_) => "bit/header",
         Fault::AdBit(_) => "bit/ad",
         Fault::AdToggle => "ad-present-absent",
+        Fault::TagPair(_, _) => "two-bits/tag",
+        Fault::TagPattern(_) => "multi-bit/tag",
     }
+}
+
+/// apply a tag-only fault to the 16 tag bytes; false when the pattern leaves the tag unchanged
+fn mutate_tag(f: &Fault, tag: &mut [u8]) -> bool {
+    let before = tag.to_vec();
+    match *f {
+        Fault::TagPair(i, j) => {
+            tag[i as usize / 8] ^= 1 << (i % 8);
+            tag[j as usize / 8] ^= 1 << (j % 8);
+        }
+        Fault::TagPattern(k) if k < 6 => {
+            let w = if k < 3 { 4 } else { 8 };
+            let d = [1u8, 0x80, 0xff][k as usize % 3];
+            for x in (0..16).step_by(w) {
+                tag[x] ^= d;
+            }
+        }
+        Fault::TagPattern(6) => tag.rotate_left(8),
+        Fault::TagPattern(_) => tag.iter_mut().for_each(|b| *b = !*b),
+        _ => {}
+    }
+    tag != &before[..]
+}
+
+fn tag_faults() -> Vec<Fault> {
+    let mut v = vec![];
+    for i in 0..128u8 {
+        for j in (i + 1)..128 {
+            v.push(Fault::TagPair(i, j));
+        }
+    }
+    for k in 0..8u8 {
+        v.push(Fault::TagPattern(k));
+    }
+    v
 }
 
 fn extensions() -> Vec<(usize, u8)> {
@@ -99,6 +141,11 @@ fn aead_faults(fam: Fam, wire_len: usize) -> Vec<Fault> {
     v
 }
 
+thread_local! {
+    /// true while the wire being mutated is a sealed box (tag after the ephemeral key)
+    static SEAL_LAYOUT: std::cell::Cell<bool> = const { std::cell::Cell::new(false) };
+}
+
 fn apply_aead(f: &Fault, ks: &Keys, wire: &[u8]) -> (Keys, Vec<u8>) {
     let mut k2 = ks.clone();
     let mut w2 = wire.to_vec();
@@ -112,6 +159,11 @@ fn apply_aead(f: &Fault, ks: &Keys, wire: &[u8]) -> (Keys, Vec<u8>) {
         }
         Fault::Trunc(n) => w2.truncate(n),
         Fault::Extend(n, s) => w2 = extend(wire, n, s),
+        Fault::TagPair(_, _) | Fault::TagPattern(_) => {
+            // sealed boxes carry the tag after the 32-byte ephemeral key
+            let off = if w2.len() >= 48 && SEAL_LAYOUT.with(|c| c.get()) { 32 } else { 0 };
+            mutate_tag(f, &mut w2[off..off + 16]);
+        }
         _ => unreachable!(),
     }
     (k2, w2)
@@ -306,6 +358,12 @@ fn apply_stream(f: &Fault, b: &StreamBase) -> Option<StreamIn> {
         }
         Fault::Trunc(n) => s.wire.truncate(n),
         Fault::Extend(n, st) => s.wire = extend(&b.wire, n, st),
+        Fault::TagPair(_, _) | Fault::TagPattern(_) => {
+            let l = s.wire.len();
+            if !mutate_tag(f, &mut s.wire[l - 16..]) {
+                return None;
+            }
+        }
         _ => return None,
     }
     Some(s)
@@ -433,6 +491,7 @@ pub fn replay(case: &Value) -> Option<String> {
     let name = case["form"].as_str().unwrap();
     let o = open_by_name(name).unwrap();
     let wire = ref_wire(o.1, &ks, &m);
+    SEAL_LAYOUT.with(|c| c.set(o.1 == Fam::Seal));
     let (k2, w2) = apply_aead(&fault, &ks, &wire);
     let out = (o.2)(&k2, &w2, SENTINEL);
     let (_, f) = judge(mode, prop, name, fam_name(o.1), fault_class(&fault, overhead(o.1), wire.len()), fault == Fault::None, &out, &m, None);
@@ -447,7 +506,7 @@ pub fn run(mode: Mode) -> i32 {
     let seed = ctx.seed;
     let maxlen = ctx.tier.pick(160usize, 400);
     let modestr = if mode == Mode::Leak { "leak" } else { "tamper" };
-    ctx.rule = format!("single-fault enumeration: for every base case (family in {{secretbox, box, sealedbox, stream}} x message length 0..={} x key alphabet) every member of the fault family — each bit of the wire (tag/MAC, body, sealed-box ephemeral key, stream tag byte), each bit of nonce / symmetric or precomputed key / stream header / associated data, AD present<->absent, truncation to every shorter length, extension by 1..=17,32,64 bytes of 00/ff/repeat-last — plus the untampered control, is applied once and presented to every open form of that family ({} AEAD forms + 2 stream forms); {}; long messages (1023..16385 bytes quick, up to 256 KiB thorough) with the structural fault family (control, truncations, extensions, key/nonce/header/AD faults, both edge bits of every component edge and of every 64*2^k / 1 KiB boundary +-1,+-17); heap container open forms (nightly build) on the reduced grid base lengths 0..=24, both edge bits of every byte, long lengths {{1024, 4097}}; locked container forms on base lengths {{0,1,17}} with one fault per component edge; non-trivial = (base, fault, form) triple executed (NA pairs, e.g. a detached form on a wire shorter than a tag, are counted as evaluations but not as non-trivial)", maxlen, open_all().len(),
+    ctx.rule = format!("single-fault enumeration: for every base case (family in {{secretbox, box, sealedbox, stream}} x message length 0..={} x key alphabet) every member of the fault family — each bit of the wire (tag/MAC, body, sealed-box ephemeral key, stream tag byte), each bit of nonce / symmetric or precomputed key / stream header / associated data, AD present<->absent, truncation to every shorter length, extension by 1..=17,32,64 bytes of 00/ff/repeat-last, every pair of tag bits and 8 structured multi-bit tag patterns (base lengths 0, 1, 17) — plus the untampered control, is applied once and presented to every open form of that family ({} AEAD forms + 2 stream forms); {}; long messages (1023..16385 bytes quick, up to 256 KiB thorough) with the structural fault family (control, truncations, extensions, key/nonce/header/AD faults, both edge bits of every component edge and of every 64*2^k / 1 KiB boundary +-1,+-17); heap container open forms (nightly build) on the reduced grid base lengths 0..=24, both edge bits of every byte, long lengths {{1024, 4097}}; locked container forms on base lengths {{0,1,17}} with one fault per component edge; non-trivial = (base, fault, form) triple executed (NA pairs, e.g. a detached form on a wire shorter than a tag, are counted as evaluations but not as non-trivial)", maxlen, open_all().len(),
         if mode == Mode::Leak { "oracle: after Err the caller's message buffer (prefilled with a sentinel; the submitted ciphertext for in-place forms) and the stream tag variable are byte-identical to what they were, or all zero" } else { "oracle: control => Ok(original message); every fault => Err (a panic is a violation); libsodium's verdict on the same faulty input must agree" });
     ctx.assume("a flipped key bit is rejected only with probability 1-2^-128 in principle; accepted as residual");
     ctx.assume("public/secret key bits of the box forms are not flipped (clamped / masked bits leave the key unchanged); the precomputed key is");
@@ -667,6 +726,57 @@ pub fn run(mode: Mode) -> i32 {
     });
     ctx.note("long_message_lengths", json!(long_lens));
     ctx.absorb("long-messages", st);
+    // multi-bit changes confined to the authentication tag: every pair of tag bits and eight
+    // structured patterns (a tag comparison that folds word differences together wrongly
+    // accepts exactly these), base lengths {0, 1, 17}, every weight-0 open form
+    {
+        let tf = tag_faults();
+        let units: Vec<(usize, usize)> = (0..4).flat_map(|f| [0usize, 1, 17].into_iter().map(move |l| (f, l))).collect();
+        let st = par_units(&units, |&(fi, len), st| {
+            let m = cval(seed, 2, len);
+            if fi < 3 {
+                let fam = fams[fi];
+                SEAL_LAYOUT.with(|c| c.set(fam == Fam::Seal));
+                let ks = Keys::make(seed, 3, 1);
+                let wire = ref_wire(fam, &ks, &m);
+                let forms: Vec<_> = open_all().iter().filter(|o| o.1 == fam && weight(o.0) == 0).collect();
+                for fault in &tf {
+                    let (k2, w2) = apply_aead(fault, &ks, &wire);
+                    if w2 == wire {
+                        continue;
+                    }
+                    let fclass = fault_class(fault, overhead(fam), wire.len());
+                    for o in &forms {
+                        let out = (o.2)(&k2, &w2, SENTINEL);
+                        let (oc, f) = judge(mode, prop, o.0, fam_name(fam), fclass, false, &out, &m, None);
+                        st.eval(&("tagbits", fi, len, *fault, o.0), out.v != Verdict::NA, &oc);
+                        if let Some((sig, what)) = f {
+                            st.fail(Fail { check: "C02.fault".into(), signature: sig, what: format!("{} on {} message of {} bytes, fault {:?}: {}", o.0, fam_name(fam), len, fault, what), case: json!({"mode": modestr, "family": fam_name(fam), "form": o.0, "keys": ks.json(), "msg": hx(&m), "fault": fault}) });
+                        }
+                    }
+                }
+                SEAL_LAYOUT.with(|c| c.set(false));
+            } else {
+                let b = stream_base(seed, 3, len, Some(5), 1);
+                let mut want = b.msg.clone();
+                want.push(b.tag);
+                for fault in &tf {
+                    let Some(s) = apply_stream(fault, &b) else { continue };
+                    let fclass = fault_class(fault, 1, b.wire.len());
+                    for form in 0..2 {
+                        let out = stream_open(form, &s);
+                        let (oc, f) = judge(mode, prop, STREAM_FORMS[form], "stream", fclass, false, &out, &want, None);
+                        st.eval(&("tagbits-stream", len, *fault, form), true, &oc);
+                        if let Some((sig, what)) = f {
+                            st.fail(Fail { check: "C02.fault".into(), signature: sig, what: format!("{} on stream message of {} bytes, fault {:?}: {}", STREAM_FORMS[form], len, fault, what), case: json!({"mode": modestr, "family": "stream", "form": STREAM_FORMS[form], "seed": seed, "ki": 3, "mlen": len, "adlen": 5, "tag": 1, "fault": fault}) });
+                        }
+                    }
+                }
+            }
+        });
+        ctx.note("tag_multi_bit_faults", json!({"pairs_of_tag_bits": 8128, "patterns": 8, "base_lengths": [0, 1, 17]}));
+        ctx.absorb("tag-multi-bit", st);
+    }
     // authentication tags handed over in run-time-sized containers of the wrong length (object
     // API with Vec tags): every proper prefix of the genuine tag
     if mode == Mode::Tamper {
